@@ -26,6 +26,14 @@ class UB(UA):
     pass
 
 
+class Opaque:
+    """no __dict__, not iterable: a leaf for every wildcard walk and an unregistered target for iteration"""
+    __slots__ = ()
+
+    def __repr__(self):
+        return 'Opaque()'
+
+
 class UC(UB):
     def __iter__(self):
         return iter(['c0', 'c1'])
@@ -69,6 +77,10 @@ POOL = [
     ('shared-T-2', lambda: {'a': {'b': 'two'}}, SHARED_T),
     ('shared-coalesce-1', lambda: {'a': 1}, SHARED_COAL),
     ('shared-coalesce-2', lambda: {'a': [2]}, SHARED_COAL),
+    ('shared-coalesce-fails-mid-build', lambda: {'b': 0}, SHARED_COAL),      # the default list cannot be completed: T['a'] fails
+    ('starstar-over-opaque-leaf', lambda: {'d': Opaque(), 'k': [1]}, '**'),
+    ('iterate-opaque', lambda: Opaque(), [T]),
+    ('iterate-opaque-with-default', lambda: {'o': Opaque()}, Coalesce(('o', [T]), default='not iterable')),
     ('shared-fill-1', lambda: {'a': 1}, SHARED_FILL),
     ('shared-fill-2', lambda: {'a': 'z'}, SHARED_FILL),
     ('shared-group-1', lambda: [1, 2, 3], SHARED_GROUP),
